@@ -57,6 +57,15 @@ def stepC03 (c : CS) (l : Line) : CS :=
       let c := if l.nat "ctr_live" ≠ 0 ∧ l.nat "ctr_restart" ≠ 0 ∧ l.nat "ctr_restart" < l.nat "ctr_live" then
                  mism c s!"SPEC[counter-highwater-lost] a new NV counter starts at {l.nat "ctr_restart"} after the power cut but at {l.nat "ctr_live"} before it" else c
       c
+  | "reborn" =>
+      -- an index deleted before the cut and defined again after it: a new index is unwritten (NV_Read: TPM_RC_NV_UNINITIALIZED)
+      let c := ev c
+      let c := branch c s!"reborn/define_rc={l.nat "define_rc"}/read_rc={l.nat "read_rc"}"
+      if l.nat "define_rc" = 0 ∧ l.nat "attrs" ≠ l.nat "want" then
+        mism c s!"SPEC[deleted-index-returned] index {l.nat "handle"} was deleted before the power cut; defined again after it with attributes {l.nat "want"}, NV_ReadPublic shows {l.nat "attrs"}"
+      else if l.nat "define_rc" = 0 ∧ (l.nat "read_rc" ≠ 0x14A ∨ l.nat "written" ≠ 0) then
+        mism c s!"SPEC[deleted-index-returned] index {l.nat "handle"} was deleted before the power cut; defined again after it, it comes up written (NV_Read rc={l.nat "read_rc"}, WRITTEN={l.nat "written"})"
+      else c
   | _ => c
 
 def checkC03 (ls : List Line) : Report := (ls.foldl stepC03 {}).rep
